@@ -191,14 +191,13 @@ Section Oracle.
   Qed.
 
   Lemma published_trusted : forall ks e keys k,
-    (forall c s, ks <> KSProfile c s) ->
+    published ks = true ->
     find_matching_key (se_kid e) "sig" (se_alg e) keys = FOk k ->
     In k keys /\ trusted_key ks e k = true.
   Proof.
     intros ks e keys k Hks H. apply find_key_sound in H as [Hin [Hu [Ha [Hk _]]]].
     split; [assumption|].
-    destruct ks as [o|c s sk|c s]; cbn; try (now rewrite Hu, Ha, Hk).
-    exfalso. now apply (Hks c s).
+    destruct ks as [o|c s sk|c s|k0]; cbn in *; try discriminate; now rewrite Hu, Ha, Hk.
   Qed.
 
   (* whichever key set: the key that verified belongs to the set and may be
@@ -207,17 +206,17 @@ Section Oracle.
     keyset_verify verify ks e p = Some k ->
     In k (ks_keys ks) /\ trusted_key ks e k = true /\ verify k e p = true.
   Proof.
-    intros ks e p k H. destruct ks as [keys|cached served skip|client store]; cbn [keyset_verify] in H.
+    intros ks e p k H. destruct ks as [keys|cached served skip|client store|k0]; cbn [keyset_verify] in H.
     - destruct keys as [l|]; cbn in H; [|discriminate].
       apply verify_found_sound in H as [Hf Hv].
-      apply (published_trusted (KSOpenID (Some l))) in Hf as [Hin Ht]; [|intros; discriminate].
+      apply (published_trusted (KSOpenID (Some l))) in Hf as [Hin Ht]; [|reflexivity].
       cbn [ks_keys]. repeat split; assumption.
     - assert (Hfetch : forall k0, remote_fetch_verify verify served e p = Some k0 ->
                 In k0 (ks_keys (KSRemote cached served skip))
                 /\ trusted_key (KSRemote cached served skip) e k0 = true /\ verify k0 e p = true).
       { intros k0 H0. destruct served as [l|]; cbn in H0; [|discriminate].
         apply verify_found_sound in H0 as [Hf Hv].
-        apply (published_trusted (KSRemote cached (Some l) skip)) in Hf as [Hin Ht]; [|intros; discriminate].
+        apply (published_trusted (KSRemote cached (Some l) skip)) in Hf as [Hin Ht]; [|reflexivity].
         cbn [ks_keys]. repeat split; try assumption. apply in_or_app. now right. }
       unfold remote_verify in H. destruct cached as [|c0 cr] eqn:Hc; [now apply Hfetch|].
       rewrite <- Hc in *.
@@ -225,7 +224,7 @@ Section Oracle.
         try (now apply Hfetch).
       destruct (verify k' e p) eqn:Hv.
       + inversion H; subst k'.
-        apply (published_trusted (KSRemote cached served skip)) in Hf as [Hin Ht]; [|intros; discriminate].
+        apply (published_trusted (KSRemote cached served skip)) in Hf as [Hin Ht]; [|reflexivity].
         repeat split; try assumption.
         destruct served; cbn [ks_keys]; [apply in_or_app; now left | assumption].
       + destruct (remote_exact skip (k_id k') (se_kid e)); [discriminate | now apply Hfetch].
@@ -237,6 +236,8 @@ Section Oracle.
       + cbn [ks_keys]. apply in_map_iff. exists x. now split.
       + cbn [trusted_key]. apply existsb_exists. exists x. split; [assumption|].
         rewrite Hc, Hi, Hx. apply jwk_eqb_refl.
+    - destruct (verify k0 e p) eqn:Hv; [|discriminate]. inversion H; subst k0.
+      cbn. repeat split; auto. apply jwk_eqb_refl.
   Qed.
 
   (* ---------- CheckSignature ---------- *)
@@ -268,14 +269,14 @@ Section Oracle.
   (* a published key set (provider's own or remote JWKS) never accepts HS*, none
      or anything outside RS / PS / ES / EdDSA, whatever the allow-list says *)
   Theorem hmac_rejected : forall allowed ks t parsed alg,
-    (forall c s, ks <> KSProfile c s) ->
+    published ks = true ->
     check_signature verify allowed ks t parsed = Ok alg ->
     asym_family alg = true /\ prefix "HS" alg = false /\ alg <> "none".
   Proof.
     intros allowed ks t parsed alg Hks H.
     apply check_signature_sound in H as [e [k [_ [_ [Ha [_ [_ [Ht _]]]]]]]].
     assert (Hf : asym_family alg = true).
-    { destruct ks as [o|c s sk|c s]; [| |exfalso; now apply (Hks c s)]; cbn in Ht;
+    { destruct ks as [o|c s sk|c s|k0]; try discriminate; cbn in Ht;
         apply andb_true_iff in Ht as [Ht _]; apply andb_true_iff in Ht as [_ Ht];
         subst alg; now apply alg_fits_family in Ht. }
     split; [assumption|]. split.
@@ -419,7 +420,7 @@ Proof.
   apply andb_true_iff in H as [H Hks]. apply andb_true_iff in H as [Ha Hpp].
   apply seqb_eq in Hpp. subst p.
   assert (Hkv : exists k, keyset_verify sym_verify ks e parsed = Some k).
-  { destruct ks as [[keys|]|cached [served|] skip|client store]; try discriminate.
+  { destruct ks as [[keys|]|cached [served|] skip|client store|k0]; try discriminate.
     - apply existsb_exists in Hks as [k [_ Hk]]. apply andb_true_iff in Hk as [Hsel Hv].
       exists k. cbn. rewrite (selectable_find _ _ _ _ Hsel). cbn. now rewrite Hv.
     - apply existsb_exists in Hks as [k [_ Hk]]. apply andb_true_iff in Hk as [Hk Hc].
@@ -436,7 +437,8 @@ Proof.
          | x :: _ => snd x | [] => mkJwk "" "" KOther 0 end).
       cbn [keyset_verify]. unfold profile_verify. rewrite profile_lookup_filter.
       destruct (filter (fun x => (fst (fst x) =s client) && (snd (fst x) =s se_kid e)) store)
-        as [|x [|y l]]; try discriminate. now rewrite Hks. }
+        as [|x [|y l]]; try discriminate. now rewrite Hks.
+    - exists k0. cbn. now rewrite Hks. }
   destruct Hkv as [k Hk]. unfold check_signature.
   destruct t as [e' p'|sigs p'|]; cbn in Hs, Hp; try discriminate.
   - inversion Hs; inversion Hp; subst. cbn [jose_parse]. rewrite Ha, Hk, seqb_refl. reflexivity.
@@ -470,7 +472,7 @@ Section RemoteSeq.
               /\ trusted_key (KSOpenID None) e k = true /\ verify k e p = true).
     { intro H0. destruct served as [l|]; cbn in H0; [|discriminate].
       apply verify_found_sound in H0 as [Hf Hv].
-      apply (published_trusted (KSOpenID None)) in Hf as [Hin Ht]; [|intros; discriminate].
+      apply (published_trusted (KSOpenID None)) in Hf as [Hin Ht]; [|reflexivity].
       repeat split; assumption. }
     unfold remote_verify in H. unfold remote_needs_fetch.
     destruct cached as [|c0 cr] eqn:Hc; [now apply Hfetch|]. rewrite <- Hc in *.
@@ -478,7 +480,7 @@ Section RemoteSeq.
       try (now apply Hfetch).
     destruct (verify k' e p) eqn:Hv.
     - inversion H; subst k'.
-      apply (published_trusted (KSOpenID None)) in Hf as [Hin Ht]; [|intros; discriminate].
+      apply (published_trusted (KSOpenID None)) in Hf as [Hin Ht]; [|reflexivity].
       repeat split; assumption.
     - destruct (remote_exact skip (k_id k') (se_kid e)); [discriminate|]. cbn [negb]. now apply Hfetch.
   Qed.
@@ -650,7 +652,7 @@ Qed.
 
 Theorem spec_model : forall i, spec i (model i) = true.
 Proof.
-  intros [kid use alg keys|allowed ks t parsed|k v ks t m now0 now1|allowed skip steps|k v ks steps]; cbn [model spec].
+  intros [kid use alg keys|allowed ks t parsed|k v ks t m now0 now1|allowed skip steps|k v ks steps|p hint t m now0 now1]; cbn [model spec].
   - apply find_spec_model.
   - destruct (check_signature sym_verify allowed ks t parsed) as [alg|e] eqn:H.
     + apply check_signature_genuine in H as [Hg Ha]. rewrite Hg. subst alg. now rewrite seqb_refl.
@@ -660,6 +662,28 @@ Proof.
   - apply remote_seq_model.
   - induction steps as [|s r IH]; cbn [map verify_seq_spec]; [reflexivity|].
     now rewrite verify_step_model, IH.
+  - unfold run_provider_verifier.
+    replace (configured_keyset p hint) with (provider_keyset p hint)
+      by (unfold configured_keyset, provider_keyset; destruct hint; reflexivity).
+    apply verify_step_model.
+Qed.
+
+(* a provider's id_token_hint verifier believes a hint only under a key of the
+   key set configured for hints (WithIDTokenHintKeySet, else the storage keys) -
+   never under the access-token key set, and vice versa *)
+Theorem provider_own_keyset : forall verify p hint t m now c' alg,
+  outcome_claims (run_provider_verifier verify p hint t m now) = Some (c', alg) ->
+  exists bytes e key,
+    m = MidOk bytes c'
+    /\ tok_sigs t = [e] /\ tok_payload t = Some bytes
+    /\ string_in (se_alg e) (effective_algs (if hint then p_hint_algs p else p_at_algs p)) = true
+    /\ In key (ks_keys (match (if hint then p_hint_keyset p else p_at_keyset p) with
+                        | Some k => k | None => KSOpenID (p_storage_keys p) end))
+    /\ verify key e bytes = true.
+Proof.
+  intros verify p hint t m now c' alg H. unfold run_provider_verifier in H.
+  apply payload_binding in H as [bytes [c [e [key [H1 [H2 [H3 [H4 [H5 [H6 [H7 H8]]]]]]]]]]].
+  exists bytes, e, key. destruct hint; cbn in *; subst; repeat split; assumption.
 Qed.
 
 (* ---------- non-vacuity: concrete inputs meeting the theorems' hypotheses ---------- *)
